@@ -234,6 +234,43 @@ class ExprMixin(CallMixin):
         return PyTuple(self.eval_seq(e.elts, env, module))
 
     def ev_List(self, e, env, module):
+        if any(isinstance(x, ast.Starred) for x in e.elts):
+            # [*a, x, *b]: concatenation, left to right, so that abstract parts keep their position
+            acc: Optional[V] = None
+            run: List[V] = []
+
+            def flush():
+                nonlocal acc, run
+                if run or acc is None:
+                    piece = PyList(list(run))
+                    piece.created_in = self._frame_id()  # type: ignore[attr-defined]
+                    acc = piece if acc is None else self.binop(ast.Add(), acc, piece, module, e)
+                    run = []
+
+            abstract = False
+            for x in e.elts:
+                if isinstance(x, ast.Starred):
+                    v = self.resolve_alt(self.eval(x.value, env, module))
+                    items = self.concrete_items(v)
+                    if items is not None:
+                        run.extend(items)
+                    elif isinstance(v, (AbsList, ListV, MapV)) or (isinstance(v, PyList) and v.loop_parts):
+                        abstract = True
+                        if run or acc is not None:
+                            flush()
+                            acc = self.binop(ast.Add(), acc, v, module, e)
+                        else:
+                            acc = self.join_lists(v, PyList([])) if isinstance(v, (AbsList, ListV)) else self.binop(ast.Add(), PyList([]), v, module, e)
+                    else:
+                        run.append(Sym("star", v))
+                else:
+                    run.append(self.eval(x, env, module))
+            if abstract:
+                flush()
+                return acc
+            l = PyList(run)
+            l.created_in = self._frame_id()
+            return l
         l = PyList(self.eval_seq(e.elts, env, module))
         l.created_in = self._frame_id()
         return l
